@@ -18,6 +18,8 @@ def T(s):
 
 
 def run(repo, run, tier):
+    from .common import readonly
+    readonly(repo, run, "C06.9", DS, ["DenseOutput.__call__", "DenseOutput.grad", "DenseOutput.find_interval", "DenseOutput.find_interval_vec"], "the query methods of the dense output")
     run.assumptions += ["NOT decided: O(h^4) interpolation error; tolerance-level reproduction for Richardson pieces",
                         "the Hermite algebra itself is property C17's clause"]
     slots(repo, run)
